@@ -83,6 +83,8 @@ def f_compute(report):
            ("permc-clear", r"m_permc\.clear\(\);", "B->permc_size = 0;", {"min": 0, "max": 1}),
            ("permc-reserve", r"m_permc\.reserve\(m_n\);", "/* reserve */", {"min": 0, "max": 1}),
            ("data-resize", r"m_data\.resize\(([^;]+)\);", r"B->packed_size = (\1);", {"max": 1}),
+           ("data-size", r"m_data\.size\(\)", "B->packed_size", {"min": 0}),
+           ("perm-size", r"m_perm\.size\(\)", "B->perm_size", {"min": 0}),
            ("alpha", r"const RealScalar alpha = \(1\.0 \+ std::sqrt\(17\.0\)\) / 8\.0;", "const Scalar alpha = (Scalar)0.6403882032022076;", {"max": 1}),
            ("copy_data", r"copy_data\(mat, uplo, shift\);", "copy_data(B, uplo, shift);", {"max": 1}),
            ("compute_pointer", r"(?<![\w>])compute_pointer\(\);", "compute_pointer(B);", {"max": 1}),
@@ -189,7 +191,7 @@ def build(tier):
     groups = []
     tc, sc = f_compress(report)
     t, s = f_compute(report)
-    alloc = ("  BK Bv; BK *B = &Bv; B->m_n = nondet_Index(); B->perm_size = nondet_Index(); B->m_perm = IVEC_NEW(1); B->kind = IVEC_NEW(1); B->permc_cap = 4096; B->m_permc = malloc(4096 * sizeof(IndexPair)); __CPROVER_assume(B->m_permc != NULL);\n"
+    alloc = ("  BK Bv; BK *B = &Bv; B->m_n = nondet_Index(); B->perm_size = nondet_Index(); __CPROVER_assume(0 <= B->perm_size && B->perm_size <= 1024); B->m_perm = IVEC_NEW(B->perm_size); B->kind = IVEC_NEW(B->perm_size); B->permc_cap = 4096; B->m_permc = malloc(4096 * sizeof(IndexPair)); __CPROVER_assume(B->m_permc != NULL);\n"
              "  B->permc_size = nondet_Index(); B->m_computed = nondet_bool(); B->m_info = nondet_int(); B->g_singular = nondet_bool(); B->packed_size = nondet_Index();\n"
              "  __CPROVER_assume(0 <= B->permc_size && B->permc_size <= 1024);\n")
     groups.append(Group("bk.compute", base + CALLEES + sc.stub() + t + s.harness("h", alloc + "  Index rows = nondet_Index(), cols = nondet_Index(); int uplo = nondet_int(); Scalar shift = nondet_Scalar();", "B, rows, cols, uplo, shift"),
